@@ -243,6 +243,45 @@ def small_scope_documents():
     return out
 
 
+# ---- the reader used one line at a time: read_pil_line given TEXT, statement after statement, in one session ----
+def ignorable_lines(rng, names, rtype, n):
+    """n reaction lines of the kinds the reader announces as ignored (no rate / no type / unknown type, any spelling of
+    the rest of the info-box, declared or undeclared species)"""
+    boxes = [v for v in infobox_variants(rtype, rng) if v["type"] != rtype and v["rate"] and v["units"]] + [{"box": ""}] * 4
+    out = []
+    for _ in range(n):
+        pool = list(names) + ["nobody1", "nobody2"] if rng.random() < 0.3 else list(names) or ["nobody1"]
+        lhs = " + ".join(rng.choice(pool) for _ in range(rng.randrange(1, 3))) + " -> " + \
+              " + ".join(rng.choice(pool) for _ in range(rng.randrange(1, 3)))
+        out.append(" ".join(x for x in (rng.choice(["reaction", "kinetic"]), rng.choice(boxes)["box"], lhs) if x))
+    return out
+
+
+def by_line_cases(rng, S, base):
+    """a valid document with ignorable reaction lines at random places (some of them twice), read through read_pil_line
+    as text line by line, two or three passes in one session, then as a whole"""
+    rt = S.reactions[0][2] if S.reactions else "open"
+    ign = ignorable_lines(rng, list(S.complexes), rt, rng.randrange(1, 4))
+    lines = list(base)
+    for l in ign + ([rng.choice(ign)] if rng.random() < 0.5 else []):
+        lines.insert(rng.randrange(len(lines) + 1), l)
+    return [{"kind": "by-line-valid-plus-ignored", "text": "\n".join(lines) + "\n", "must_read": True,
+             "expect_reactions": len(S.reactions), "by_line": {"repeat": rng.randrange(2, 4), "ignorable": sorted(set(ign))}}]
+
+
+def by_line_small_scope():
+    """every statement kind and every ignorable info-box of the small scope, line by line, two passes"""
+    base = ["length a = 6", "length b = short", "sequence c = ACGT", "sequence d = ACGTN : 5", "strand s = a b",
+            "sup-sequence t = c d : 9", "A = a b", "B = b* a* @initial 5 nM", "AB = a( b( + ) )",
+            "structure SA = s + s : ..+..", "state A = [A]", "state B = [B]", "state AB = [AB]",
+            "reaction [bind21 = 1.5e6 /M/s] A + B -> AB", "reaction [condensed = 2 /M/s] A + B -> AB"]
+    ign = [f"reaction {v['box']} A + B -> AB" for v in infobox_variants("bind21")
+           if v["type"] != "bind21" and v["rate"] and v["units"]] + ["reaction AB -> A + B", "kinetic A + A -> nobody"]
+    ign = sorted(set(ign))
+    return [{"kind": "by-line-small-scope", "text": "\n".join(base + ign) + "\n", "must_read": True, "expect_reactions": 2,
+             "by_line": {"repeat": 2, "ignorable": ign}}]
+
+
 FIXED_DOCUMENTS = [
     ("huge-length", "length a = 99999999999999999999999\nX = a( a* )\n"),
     ("zero-length-only", "length z = 0\n"),
@@ -320,13 +359,30 @@ def run(ctx):
         for c in infobox_cases(rng, S, base, 1 if quick else 3) + ignore_cases(rng, S, base, 1 if quick else 3):
             kinds[c["kind"]] = kinds.get(c["kind"], 0) + 1
             cases.append(c)
+    # the reader used one line at a time (read_pil_line given text; drawn after everything above)
+    for c in by_line_small_scope():
+        kinds[c["kind"]] = kinds.get(c["kind"], 0) + 1
+        cases.append(c)
+    for S in systems if not quick else systems[:6]:
+        base = [gen_pil.render_stmt(S, it) for it in S.order]
+        if not base:
+            continue
+        for c in by_line_cases(rng, S, base):
+            kinds[c["kind"]] = kinds.get(c["kind"], 0) + 1
+            cases.append(c)
+        # a single-fault corruption, line by line as well: declared errors only, whatever is held
+        kind, text = rng.choice(corruptions(rng, S, 1))
+        c = {"kind": "by-line-" + kind, "text": text, "by_line": {"repeat": 2}}
+        kinds[c["kind"]] = kinds.get(c["kind"], 0) + 1
+        cases.append(c)
     out = run_oracle("c16.py", {"cases": cases})
     ctx.cov["fault_stream"] = {"documents": len(cases), "by_kind": kinds, "failures": len(out["failures"])}
     ctx.add_eval(len(cases), len({c["text"] + "\0" + json.dumps(c.get("ignore")) for c in cases}), samples=[cases[0], cases[-1]])
     ctx.cov["rule"] = ("static: every LOAD_GLOBAL / module-level LOAD_NAME of every code object of the package (theorem over the "
                        "regenerated table); dynamic: single-fault corruptions of generated valid documents at random positions "
                        "and token-level multi-fault mutations, reaction info-boxes with every part present / absent / odd, and "
-                       "`ignore` given as list / tuple / set / frozenset / dict, run against the implementation; "
+                       "`ignore` given as list / tuple / set / frozenset / dict, and documents handed to read_pil_line as text line by "
+                       "line (ignorable lines included, several passes in one session), run against the implementation; "
                        "non-trivial = distinct documents")
     ctx.cov["partial"] = ["reader_declared_only_full: the model-level outcome kinds OutOfFuel / BadRequest / Unmodelled are not "
                           "excluded by a theorem (they never occurred in any correspondence run)"]
@@ -338,7 +394,11 @@ def run(ctx):
             continue
         seen_keys.add(k)
         found.append({"key": {"kind": f["case"]["kind"], "what": f["what"].split(":")[0]}, "input": f["case"], "what": f["what"],
-                      "snippet": "from dsdobjects.objectio import *; set_io_objects(); read_pil(" + repr(f["case"]["text"]) +
+                      "snippet": ("from dsdobjects.objectio import *; set_io_objects(); held = [read_pil_line(l) for n in range(" +
+                                  str(f["case"]["by_line"].get("repeat", 1)) + ") for l in " + repr(f["case"]["text"]) +
+                                  ".split('\\n') if l.strip()]; read_pil(" + repr(f["case"]["text"]) + ")")
+                                 if f["case"].get("by_line") else
+                                 "from dsdobjects.objectio import *; set_io_objects(); read_pil(" + repr(f["case"]["text"]) +
                                  ignore_source(f["case"].get("ignore")) + ")"})
 
     def search(_):
